@@ -152,3 +152,48 @@ func (r *Raw6) Get(code uint16) ([][]byte, int) {
 	}
 	return v, len(v)
 }
+
+// Frame is an Ethernet/IPv4/UDP frame decoded by hand.
+type Frame struct {
+	DstMAC, SrcMAC [6]byte
+	EtherType      uint16
+	SrcIP, DstIP   [4]byte
+	Proto          byte
+	SrcPort        uint16
+	DstPort        uint16
+	Payload        []byte
+	IsIPv4UDP      bool
+}
+
+func ParseFrame(b []byte) (*Frame, error) {
+	if len(b) < 14 {
+		return nil, errors.New("short frame")
+	}
+	f := &Frame{EtherType: binary.BigEndian.Uint16(b[12:14])}
+	copy(f.DstMAC[:], b[0:6])
+	copy(f.SrcMAC[:], b[6:12])
+	if f.EtherType != 0x0800 || len(b) < 14+20 {
+		return f, nil
+	}
+	ip := b[14:]
+	ihl := int(ip[0]&0x0f) * 4
+	if ip[0]>>4 != 4 || ihl < 20 || len(ip) < ihl+8 {
+		return f, nil
+	}
+	f.Proto = ip[9]
+	copy(f.SrcIP[:], ip[12:16])
+	copy(f.DstIP[:], ip[16:20])
+	if f.Proto != 17 {
+		return f, nil
+	}
+	udp := ip[ihl:]
+	f.SrcPort = binary.BigEndian.Uint16(udp[0:2])
+	f.DstPort = binary.BigEndian.Uint16(udp[2:4])
+	ulen := int(binary.BigEndian.Uint16(udp[4:6]))
+	if ulen < 8 || ulen > len(udp) {
+		ulen = len(udp)
+	}
+	f.Payload = udp[8:ulen]
+	f.IsIPv4UDP = true
+	return f, nil
+}
